@@ -475,8 +475,8 @@ def tag_state(*values: Any, name: str) -> Any:
 
         # Return result with appropriate batching dimensions
         if isinstance(result, tuple):
-            # For multiple outputs, each has the same dims as inputs
-            return result, tuple(dims[0] if dims else () for _ in result)
+            # The values pass through unchanged: output i is batched like operand i
+            return result, tuple(dims)
         else:
             # For single output, return as tuple (JAX expects a sequence for dims_out)
             return (result,), (dims[0] if dims else (),)
